@@ -1156,7 +1156,7 @@ func TestGocvReplay(t *testing.T) {
 	replayers["(*kmipclient.Client).Request"] = replayers["scenario:C12"]
 	replayers["(*kmipclient.Client).BatchOpt"] = replayers["scenario:C12"]
 	// key accessors (C14): every decodable shape with optional parts missing
-	replayers["scenario:C14"] = &Replayer{PkgDir: ".", Oracle: "SymmetricKey, SecretData, PublicKey, PrivateKey with every key format type x {no key value, wrapped only, plain without material, plain with each single material kind present, transparent RSA private key with every subset of its 7 optional parts}: every accessor returns normally (value or error), never panics",
+	replayers["scenario:C14"] = &Replayer{PkgDir: ".", Oracle: "SymmetricKey, SecretData, PublicKey, PrivateKey with every key format type x {no key value, wrapped only, plain without material, plain with each single material kind present, transparent RSA private key with every subset of its 7 optional parts, EC scalars / points and RSA numbers that are zero, negative, equal to or far above the valid range on every curve}: every accessor returns normally (value or error), never panics",
 		Template: `package kmip
 
 import (
@@ -1190,6 +1190,25 @@ func TestGocvReplay(t *testing.T) {
 			}
 		}
 		mats[fmt.Sprintf("rsapriv-parts-%07b", mask)] = KeyMaterial{TransparentRSAPrivateKey: k}
+	}
+	// decodable values outside the mathematical range of the key type: scalars that are zero, negative, equal to
+	// or far above the group order; moduli and exponents that are zero, negative or huge
+	huge := new(big.Int).Lsh(big.NewInt(1), 700)
+	for ci, curve := range []RecommendedCurve{RecommendedCurveP_224, RecommendedCurveP_256, RecommendedCurveP_384, RecommendedCurveP_521, 0} {
+		for di, d := range []*big.Int{big.NewInt(0), big.NewInt(-5), big.NewInt(1), new(big.Int).Lsh(big.NewInt(1), 300), huge, new(big.Int).Neg(huge)} {
+			mats[fmt.Sprintf("ecpriv-c%d-d%d", ci, di)] = KeyMaterial{TransparentECPrivateKey: &TransparentECPrivateKey{RecommendedCurve: curve, D: *d}}
+			mats[fmt.Sprintf("ecdsapriv-c%d-d%d", ci, di)] = KeyMaterial{TransparentECDSAPrivateKey: &TransparentECDSAPrivateKey{RecommendedCurve: curve, D: *d}}
+		}
+		for qi, q := range [][]byte{nil, {}, {4}, {4, 1, 2}, make([]byte, 300), append([]byte{2}, make([]byte, 32)...)} {
+			mats[fmt.Sprintf("ecpub-c%d-q%d", ci, qi)] = KeyMaterial{TransparentECPublicKey: &TransparentECPublicKey{RecommendedCurve: curve, QString: q}}
+			mats[fmt.Sprintf("ecdsapub-c%d-q%d", ci, qi)] = KeyMaterial{TransparentECDSAPublicKey: &TransparentECDSAPublicKey{RecommendedCurve: curve, QString: q}}
+		}
+	}
+	for vi, v := range []*big.Int{big.NewInt(0), big.NewInt(-7), big.NewInt(1), huge, new(big.Int).Neg(huge)} {
+		mats[fmt.Sprintf("rsapriv-all-%d", vi)] = KeyMaterial{TransparentRSAPrivateKey: &TransparentRSAPrivateKey{Modulus: *v, PrivateExponent: v, PublicExponent: big.NewInt(3), P: v, Q: v, PrimeExponentP: v, PrimeExponentQ: v, CRTCoefficient: v}}
+		mats[fmt.Sprintf("rsapriv-mod-%d", vi)] = KeyMaterial{TransparentRSAPrivateKey: &TransparentRSAPrivateKey{Modulus: *v, PrivateExponent: big.NewInt(413), PublicExponent: big.NewInt(17), P: big.NewInt(61), Q: big.NewInt(53)}}
+		mats[fmt.Sprintf("rsapriv-exp-%d", vi)] = KeyMaterial{TransparentRSAPrivateKey: &TransparentRSAPrivateKey{Modulus: *big.NewInt(3233), PrivateExponent: v, PublicExponent: v, P: big.NewInt(61), Q: big.NewInt(53)}}
+		mats[fmt.Sprintf("rsapub-%d", vi)] = KeyMaterial{TransparentRSAPublicKey: &TransparentRSAPublicKey{Modulus: *v, PublicExponent: *v}}
 	}
 	for _, f := range formats {
 		var kvs []*KeyValue
